@@ -83,9 +83,13 @@ func VerifH_DescriptionNormal() {
 		last := y[len(y)-1]
 		verifrt.Assert("C15.desc.no-trailing-blank", last != '\n' && last != ' ' && last != '\t')
 	}
-	// normalising twice changes nothing
-	z, err2 := description(append([]byte(nil), y...))
-	verifrt.Assert("C15.desc.idempotent", err2 == nil && string(z) == string(y))
+	// normalising twice changes nothing - for a result that is not itself of the parenthesised form: a text
+	// that begins with '(' and ends with ')' read as a body again is the parenthesised spelling of what is
+	// inside (that is syntax, not normalisation: such a text can only be written in parentheses)
+	if !(len(y) >= 2 && y[0] == '(' && y[len(y)-1] == ')') {
+		z, err2 := description(append([]byte(nil), y...))
+		verifrt.Assert("C15.desc.idempotent", err2 == nil && string(z) == string(y))
+	}
 	// the indentation common to its lines is removed (texts whose first line is not blank)
 	lines := refLines(y)
 	if len(lines) > 0 && !refIsBlankLine(lines[0]) {
